@@ -25,6 +25,9 @@ ASSUMPTIONS = ['uniformity of coefficients is reduced to "each coefficient is on
                'the quality of the secrets module itself is trusted']
 
 
+TIMEOUT_INCONCLUSIVE = True  # hangs are decided by quiescence in the simulator, not by the wall clock
+
+
 def budget(tier):
     return dict(shards=16, examples=45 if tier == 'quick' else 500)
 
